@@ -189,8 +189,10 @@ class Array(
                 self._serialize = lambda value: [serialize(x) for x in value]
                 return self._serialize(value)
             elif isinstance(items, list):
+                # elements beyond the positional items are untyped: they are passed through as they are
                 self._serialize = lambda value: [
-                    items[i].serialize(x) for (i, x) in enumerate(value)
+                    items[i].serialize(x) if i < len(items) else deepcopy(x)
+                    for (i, x) in enumerate(value)
                 ]
                 return self._serialize(value)
         return deepcopy(list(value))
